@@ -10,6 +10,7 @@ import (
 	"context"
 	"fmt"
 	"sync"
+	"time"
 
 	"github.com/jackc/pgx/v4/pgxpool"
 	pubsub "github.com/libp2p/go-libp2p-pubsub"
@@ -67,6 +68,9 @@ type World struct {
 	EonNo      int64
 	Activation int64
 	MaxKeys    uint64
+	// ZeroThreshold: the keyper set is stored (database, access node storage) with threshold 0, as
+	// a node that synced such a set from the contract would hold it
+	ZeroThreshold bool
 }
 
 func NewWorld(seed uint64, n, t int) *World {
@@ -110,9 +114,11 @@ type Node struct {
 	Flavour Flavour
 	Index   int // keyper index in the set, -1 if not a member
 	DBNode  *dbfix.Node
-	Pool    *pgxpool.Pool
-	P2P     *p2p.P2PMessaging
-	wire    *wire
+	// Incarnation is the name under which the node's pool is known to the in-memory database (fault plans)
+	Incarnation string
+	Pool        *pgxpool.Pool
+	P2P         *p2p.P2PMessaging
+	wire        *wire
 	// Sender is what the node's own code uses to send (the flavour's middleware, or the wire).
 	Sender  p2p.Messaging
 	KSH     *epochkghandler.KeyShareHandler
@@ -183,18 +189,19 @@ func NewNode(ctx context.Context, w *World, f Flavour, index int, state DBState)
 		switch state {
 		case StateEmpty:
 		case StateNoDKGResult, StateFailedDKG:
-			n.Storage.AddKeyperSet(uint64(w.CfgIndex), w.Keypers.KeyperSet(w.CfgIndex, w.Activation, int32(w.T)))
+			n.Storage.AddKeyperSet(uint64(w.CfgIndex), w.Keypers.KeyperSet(w.CfgIndex, w.Activation, w.storedThreshold()))
 		case StateNotMember: // the reverse partial state (events are synced by independent loops)
 			n.Storage.AddEonKey(uint64(w.CfgIndex), w.Eon.PublicKey)
 		default:
 			n.Storage.AddEonKey(uint64(w.CfgIndex), w.Eon.PublicKey)
-			n.Storage.AddKeyperSet(uint64(w.CfgIndex), w.Keypers.KeyperSet(w.CfgIndex, w.Activation, int32(w.T)))
+			n.Storage.AddKeyperSet(uint64(w.CfgIndex), w.Keypers.KeyperSet(w.CfgIndex, w.Activation, w.storedThreshold()))
 		}
 		cfg := &gnosisaccessnode.Config{InstanceID: w.InstanceID, MaxNumKeysPerMessage: w.MaxKeys}
 		p.AddMessageHandler(gnosisaccessnode.NewDecryptionKeysHandler(cfg, n.Storage)) // gnosisaccessnode/node.go:39
 		return n, nil
 	}
-	n.DBNode, err = dbfix.NewNode(ctx, definitionFor(f), fmt.Sprintf("%s-%d", f, index))
+	n.Incarnation = fmt.Sprintf("%s-%d", f, index)
+	n.DBNode, err = dbfix.NewNode(ctx, definitionFor(f), n.Incarnation)
 	if err != nil {
 		return nil, err
 	}
@@ -262,7 +269,7 @@ func (n *Node) fill(ctx context.Context, state DBState) error {
 		// the set exists, the node's identity is not in it (Index must be -1 for a real outsider);
 		// nothing else to do: rows are the same
 	}
-	if err := dbfix.InsertKeyperSet(ctx, n.Pool, w.CfgIndex, w.Activation, addrs, int32(w.T), true); err != nil {
+	if err := dbfix.InsertKeyperSet(ctx, n.Pool, w.CfgIndex, w.Activation, addrs, w.storedThreshold(), true); err != nil {
 		return err
 	}
 	if n.Flavour == Snapshot {
@@ -405,4 +412,71 @@ func (n *Node) TriggerCore(ctx context.Context, block uint64, ids [][]byte) ([]S
 	default:
 	}
 	return n.TakeSent(), err
+}
+
+// ReceiveLoop is the node's real receive loop (P2PMessaging.runHandleMessages) run by the harness.
+type ReceiveLoop struct {
+	n      *Node
+	cancel context.CancelFunc
+	done   chan error
+}
+
+// StartReceiveLoop starts the real receive loop on the node's message channel.
+func (n *Node) StartReceiveLoop(ctx context.Context) *ReceiveLoop {
+	lctx, cancel := context.WithCancel(ctx)
+	l := &ReceiveLoop{n: n, cancel: cancel, done: make(chan error, 1)}
+	go func() { l.done <- n.P2P.VerifRunHandleMessages(lctx) }()
+	return l
+}
+
+// Push hands an (already validated) message to the loop, as the gossip room's read loop does.
+// It returns false if the loop has ended instead of taking the message.
+func (l *ReceiveLoop) Push(topic string, data []byte) bool {
+	msg := &pubsub.Message{Message: &pubsubpb.Message{Data: data, Topic: &topic}}
+	for {
+		select {
+		case l.n.P2P.P2P.GossipMessages <- msg:
+			return true
+		case err := <-l.done:
+			l.done <- err
+			return false
+		}
+	}
+}
+
+// Drained waits until the loop has taken every pushed message and finished handling all but
+// possibly the barrier message it is given (a message nobody handles). It returns the loop's
+// result and true if the loop ended on its own.
+func (l *ReceiveLoop) Drained(barrierTopic string, barrierData []byte) (error, bool) {
+	for i := 0; i < 2; i++ {
+		if !l.Push(barrierTopic, barrierData) {
+			break
+		}
+	}
+	for i := 0; i < 20000; i++ { // generous watchdog (20 s), not a verdict
+		select {
+		case err := <-l.done:
+			l.done <- err
+			return err, true
+		default:
+		}
+		if len(l.n.P2P.P2P.GossipMessages) == 0 {
+			return nil, false
+		}
+		time.Sleep(time.Millisecond)
+	}
+	return nil, false
+}
+
+// Stop cancels the loop and returns what it returned.
+func (l *ReceiveLoop) Stop() error {
+	l.cancel()
+	return <-l.done
+}
+
+func (w *World) storedThreshold() int32 {
+	if w.ZeroThreshold {
+		return 0
+	}
+	return int32(w.T)
 }
